@@ -24,7 +24,7 @@ cargo test --workspace --no-fail-fast --offline > $W/all_with.txt 2>&1
 python3 - "$W" "$ID" "$NAME" "$rc_without" "$rc_with" "$demo_filter" <<'PY'
 import sys,re,json
 W,ID,NAME,rcwo,rcw,flt=sys.argv[1:]
-stable=[l.strip().replace('monorail::','',1) for l in open('/tmp/mut5/stable_tests.txt') if l.strip()]
+stable=[l.strip().replace('monorail::','',1) for l in open('/verif/tools/stable_tests.txt') if l.strip()]
 txt=open(W+'/all_with.txt').read()
 res=dict(re.findall(r'^test (\S+) \.\.\. (\w+)',txt,re.M))
 bad=[t for t in stable if res.get(t)!='ok']
